@@ -219,6 +219,11 @@ def hostile_items(P, r, ser, base_kind):
         items.append(("payload-shape:%s" % core.short(sh, 60), wire.encode(wire.INVOKE, 0, 3, ser.serializer_id, payload)))
         if isinstance(sh, list) and len(sh) >= 2 and sh[1] == "<batch>":
             items.append(("batch:%s" % core.short(sh, 40), wire.encode(wire.INVOKE, wire.F_BATCH, 3, ser.serializer_id, payload)))
+    # a complete payload followed by more: a second complete call (of another method, with a recognisable token), half a call, junk
+    second = valid_invoke(P, ser, "echo", ("INJECTED-BY-HOSTILE-CLIENT",))[40:]
+    for mt, first in ((wire.INVOKE, valid_invoke(P, ser)[40:]), (wire.CONNECT, valid_connect(P, ser)[40:])):
+        for what, tail in (("second-call", second), ("two-more-calls", second + second), ("half-a-call", second[:len(second) // 2]), ("junk", b"\x00\xff\x01"), ("nul", b"\x00")):
+            items.append(("payload+trailing-%s:%d" % (what, mt), wire.encode(mt, 0, 3, ser.serializer_id, first + tail)))
     items.append(("nest-1100", wire.encode(wire.INVOKE, 0, 3, ser.serializer_id, (b"[" * 1100 + b"]" * 1100) if ser.serializer_id in (1, 3) else b"\x91" * 1100 + b"\xc0")))
     items.append(("oneway-to-raiser", valid_invoke(P, ser, "raise_unser", (), flags=wire.F_ONEWAY)))
     items.append(("ping", wire.encode(wire.PING, 0, 7, 42, b"ping")))
@@ -358,7 +363,10 @@ def run_config(P, cfg, rec, r, n_items):
     pay = {"cfg": cfg}
     try:
         fx.register(make_service(P), "svc")
-        witnesses = [Witness(fx, i, ["serpent", "marshal"][i % 2]) for i in range(2)]
+        # clients of every serializer are connected all along (a small pool leaves room for two: which two rotates with the configuration)
+        wsers = list(fixture.SERIALIZERS)
+        r.shuffle(wsers)
+        witnesses = [Witness(fx, i, wsers[i]) for i in range(4 if cfg["pool"] > 5 else 2)]
         for w in witnesses:
             w.start()
         for w in witnesses:
@@ -373,8 +381,8 @@ def run_config(P, cfg, rec, r, n_items):
         r.shuffle(work)
         if n_items:
             # (a sample in the quick tier; the method-raises-unserialisable items are always part of it)
-            keep = [w for w in work if "raise_" in w[2] or "stream_" in w[2]]
-            rest = [w for w in work if not ("raise_" in w[2] or "stream_" in w[2])]
+            keep = [w for w in work if "raise_" in w[2] or "stream_" in w[2] or "trailing-" in w[2]]
+            rest = [w for w in work if not ("raise_" in w[2] or "stream_" in w[2] or "trailing-" in w[2])]
             work = keep + rest[:max(0, n_items - len(keep))]
             r.shuffle(work)
         lock = threading.Lock()
